@@ -14,6 +14,7 @@ for d in ${@:-$(ls -d seeded/C*-m* | xargs -n1 basename)}; do
   rc=$?
   t1=$(date +%s)
   git -C /repo checkout -- .
+  git -C /verif checkout -- evidence/$id.json 2>/dev/null   # evidence must come from the unchanged tree
   viol=$(echo "$res" | grep "^VIOLATION" | sed 's/.*obligation=//' | tr '\n' ';' | cut -c1-300)
   det=no; [ $rc -eq 1 ] && det=yes; [ $rc -ge 2 ] && det=broken
   sed -i "/^$d\t/d" $OUT
